@@ -106,6 +106,20 @@ Proof. exact backward_confined_to_tracked_graph_pf. Qed.
 Goal True. idtac "ASSUMPTIONS backward_confined_to_tracked_graph". Abort.
 Print Assumptions backward_confined_to_tracked_graph.
 
+(* flags changed between forward and backward (freeze(), manual flips): a tensor that does not require grad WHEN BACKWARD RUNS
+   is outside the graph being differentiated and is not written: every accumulation of every backward closure is guarded by
+   exactly `<its own target>.requires_grad`, evaluated inside the closure (generated from the AST: a flag captured at forward
+   time, e.g. `x_req = x.requires_grad` used as the guard, makes the row false); every closure has such a row; and
+   Tensor.backward creates / re-zeroes a child's buffer only under `child.requires_grad and ...` and refuses a root that does
+   not require grad (generated flags). *)
+Theorem frozen_tensors_not_written :
+  (forall q b, In (q, b) closure_guards_live -> b = true) /\
+  (forall fd, In fd program -> named closure_names fd = true -> In (f_name fd, true) closure_guards_live) /\
+  walk_zeroes_only_requiring = true.
+Proof. exact frozen_tensors_not_written_pf. Qed.
+Goal True. idtac "ASSUMPTIONS frozen_tensors_not_written". Abort.
+Print Assumptions frozen_tensors_not_written.
+
 (* ---- non-vacuity ------------------------------------------------------------------------------------------ *)
 Example program_covers_named_kernels :
   forallb (fun n => match find_fun program n with Some _ => true | None => false end)
